@@ -1,26 +1,40 @@
 #!/usr/bin/env python3
-"""Regenerates MANIFEST.json from bin/manifest_src.py (single source for checks + not_applicable)."""
-import json, os, sys
-sys.path.insert(0, os.path.dirname(os.path.abspath(__file__)))
-from manifest_src import CHECKS, NOT_APPLICABLE, HOOK_COMMITS, NOTES
+"""Regenerates MANIFEST.json and known_findings.json from props/*.json (one file per property)."""
+import json, os, subprocess
 root = os.path.dirname(os.path.dirname(os.path.abspath(__file__)))
+ALL = ["C%02d" % i for i in range(1, 21)]
+props = {}
+for f in sorted(os.listdir(os.path.join(root, "props"))):
+    if f.endswith(".json"):
+        c = json.load(open(os.path.join(root, "props", f)))
+        props[c["id"]] = c
+claimed = {k: v for k, v in props.items() if not v.get("not_applicable")}
+PENDING = "machinery for this property is not yet built in this tree; designed in DESIGN.md §5 (Lean model + theorems + correspondence) and not claimed until it runs"
+hook_commits = []
+hc = os.path.join(root, "hook_commits.txt")
+if os.path.exists(hc):
+    hook_commits = [l.split()[0] for l in open(hc) if l.strip() and not l.startswith("#")]
 m = {
  "version": 1,
  "setup_cmd": "bin/setup",
- "hooks": {"guard": "verif", "enable": "go build -tags verif (the harness module replaces github.com/php-any/origami => /repo)",
+ "hooks": {"guard": "verif", "enable": "go build -tags verif (harness module: replace github.com/php-any/origami => /repo)",
            "baseline_off_cmd": "cd /repo && go build ./... && go test -vet=off -count=1 -timeout 25m ./...",
-           "source_commits": HOOK_COMMITS, "add_only": True},
+           "source_commits": hook_commits, "add_only": True},
  "engines": [
-  {"name": "lean", "path": "lean", "serves_properties": sorted(CHECKS), "kind_free_text": "Lean 4.33 Lake project: Model (executable models), Spec, Proofs (theorems), Generated (translator output), Drivers (vm_cXX line-protocol executables)"},
-  {"name": "harness", "path": "harness", "serves_properties": sorted(CHECKS), "kind_free_text": "Go correspondence + violation-search harness (cmd/vh), built from /repo's working tree on every run"},
-  {"name": "extract", "path": "extract", "serves_properties": sorted(k for k, v in CHECKS.items() if v.get("extract")), "kind_free_text": "go/ast translator: source facts -> lean/Generated/*.lean"},
+  {"name": "lean", "path": "lean", "serves_properties": sorted(claimed), "kind_free_text": "Lean 4.33 Lake project: Model (executable models), Spec, Proofs (theorems), Generated (translator output), Drivers (vm_cXX line-protocol executables)"},
+  {"name": "harness", "path": "harness", "serves_properties": sorted(claimed), "kind_free_text": "Go correspondence + violation-search harness (cmd/cXX), built from /repo's working tree on every run"},
+  {"name": "extract", "path": "extract", "serves_properties": sorted(k for k, v in claimed.items() if v.get("extract")), "kind_free_text": "go/ast translators: source facts -> lean/Generated/*.lean, regenerated on every run"},
  ],
  "checks": [],
- "notes": NOTES,
- "not_applicable": [{"property_id": k, "reason": v} for k, v in sorted(NOT_APPLICABLE.items())],
+ "notes": "Every check = Lean theorems about a model (lake build + #print axioms audit) + a tie to /repo checked on every run (regenerated facts and/or differential correspondence through vm_cXX) + a violation search with a model-independent oracle. See DESIGN.md.",
+ "not_applicable": [],
 }
-for pid in sorted(CHECKS):
-    c = CHECKS[pid]
+known = []
+for pid in ALL:
+    c = props.get(pid)
+    if c is None or c.get("not_applicable"):
+        m["not_applicable"].append({"property_id": pid, "reason": (c or {}).get("not_applicable") or PENDING})
+        continue
     m["checks"].append({
         "property_id": pid,
         "quick_cmd": f"bin/check {pid} quick",
@@ -32,5 +46,8 @@ for pid in sorted(CHECKS):
         "level_note": c["note"],
         "technique": c["technique"],
     })
+    for k in c.get("known_findings", []):
+        known.append(dict(property=pid, **k))
 json.dump(m, open(os.path.join(root, "MANIFEST.json"), "w"), indent=1, ensure_ascii=False)
-print("checks:", sorted(CHECKS), "not_applicable:", sorted(NOT_APPLICABLE))
+json.dump(known, open(os.path.join(root, "known_findings.json"), "w"), indent=1, ensure_ascii=False)
+print("checks:", [c["property_id"] for c in m["checks"]], "known:", len([k for k in known if k["status"] == "known"]), "fixed:", len([k for k in known if k["status"] == "fixed"]))
